@@ -49,7 +49,9 @@ Example C16_guard_nonvacuous :
      RevertToSnapshot 0; Exist 12%N; GetBalance 11%N; GetCommittedState 11%N 1%N; Empty 12%N;
      Finalise; GetCommittedState 11%N 1%N; Snapshot; SetState 11%N 1%N 0; AddBalance 13%N 5; RevertToSnapshot 0;
      SubBalance 11%N 100; SetNonce 11%N 1; Finalise; BlockCommit; GetBalance 11%N; GetState 11%N 1%N; Snapshot;
-     AddBalance 14%N 0; Finalise; Exist 14%N] = true.
+     AddBalance 14%N 0; Finalise; Exist 14%N;
+     CreateAccount 15%N; SetNonce 15%N 1; Snapshot; SetCode 15%N 2%N; GetCodeSize 15%N; RevertToSnapshot 0; GetCodeHash 15%N;
+     SetCode 15%N 3%N; Finalise; GetCode 15%N; GetCodeHash 15%N; Suicide 15%N; Finalise; Exist 15%N; GetCode 15%N] = true.
 Proof. vm_compute. reflexivity. Qed.
 
 (* the full statement (no guard) is false of the faithful adapter model; each witness is replayed
